@@ -2228,6 +2228,16 @@ func (p *Parser) evaluateStatement(ctx context) (Statement, error) {
 
 			if err == nil && stmt == nil {
 				stmt, err = p.evaluateExpression(ctx)
+
+				// Like in Go, only calls may be used as statements. Other expressions have no effect
+				// and would leave blocks without any command in the target script.
+				if err == nil {
+					switch stmt.StatementType() {
+					case STATEMENT_TYPE_FUNCTION_CALL, STATEMENT_TYPE_APP_CALL, STATEMENT_TYPE_COPY, STATEMENT_TYPE_INPUT, STATEMENT_TYPE_READ:
+					default:
+						return nil, p.atError("expression is evaluated but not used", token)
+					}
+				}
 			}
 		}
 	}
